@@ -20,7 +20,7 @@ def main():
     for name in args:
         sd = os.path.join(VERIF, "seeded", name)
         meta = json.load(open(sd + "/meta.json"))
-        cs = [meta["property"]] if checks == ["SELF"] else (checks or list(meta.get("checks", {}).keys()) or [meta["property"]])
+        cs = [meta["property"]] if checks == ["SELF"] else (checks or [k for k in meta.get("checks", {}).keys() if k != "SELF"] or [meta["property"]])
         root = tempfile.mkdtemp(prefix="seedr-", dir="/tmp")
         try:
             sh("rsync -a --exclude .git /repo/ %s/repo/" % root)
